@@ -3,7 +3,8 @@
 From Coq Require Import List ZArith QArith Bool String Reals Qreals.
 From BZ Require Import Base.Ops Base.RInst Base.PyVal Model.Curve Model.Intersect Gen.PyFnHelpers Gen.PyFnGeometric Gen.PyFnIntersect
   Gen.PyIntersectionHelpers Theory.CurveEvalExtra Theory.Predicates Theory.IntersectFlow Theory.IntersectPrune Theory.IntersectPruneR
-  Theory.LocateTheory Theory.RoundTheory Base.QcInst Model.Rounds Theory.Hom Theory.RoundModelTheory.
+  Theory.LocateTheory Theory.RoundTheory Base.QcInst Model.Rounds Theory.Hom Theory.RoundModelTheory
+  Model.Hull Theory.HullLattice Theory.ClipSound Theory.PruneSound.
 Import ListNotations.
 
 (* curves whose control-point boxes are disjoint have no common point: the empty answer is right, every degree *)
@@ -111,3 +112,27 @@ Theorem C03_tangent_branch_refuted :
     B (map Q2R f2_x1) (/ 2)%R = B (map Q2R f2_x2) 0%R /\ B (map Q2R f2_y1) (/ 2)%R = B (map Q2R f2_y2) 0%R.
 Proof. exact tangent_branch_loses_a_common_point. Qed.
 Print Assumptions C03_tangent_branch_refuted.
+
+(* ---- pruning by convex hulls (more than 64 candidates) never discards a common point - certified per instance ----
+   If simple_convex_hull returns the convex hull of each control net (hull_ok = true: every control point inside, strictly convex,
+   counter-clockwise; a computable check, and a theorem for every net on the 4 x 4 lattice) and polygon_collide of the two
+   hulls is false, the two curves have no common point, for all real parameters in [0,1]; every degree.  (A linear functional
+   on a strictly convex polygon is extremal at a vertex: only the two edges at that vertex are needed.) *)
+Theorem C03_hull_pruning_is_sound : forall (x1 y1 x2 y2 : list Q),
+  List.length x1 = List.length y1 -> List.length x2 = List.length y2 -> x1 <> [] -> x2 <> [] ->
+  hull_ok (combine x1 y1) = true -> hull_ok (combine x2 y2) = true ->
+  polygon_collide (simple_convex_hull (combine x1 y1)) (simple_convex_hull (combine x2 y2)) = false ->
+  forall s t : R, (0 <= s <= 1)%R -> (0 <= t <= 1)%R -> ~ (BR x1 s = BR x2 t /\ BR y1 s = BR y2 t).
+Proof. exact hull_pruning_is_sound. Qed.
+Print Assumptions C03_hull_pruning_is_sound.
+(* on the 4 x 4 lattice no certificate is needed *)
+Theorem C03_hull_pruning_is_sound_on_the_lattice : forall (x1 y1 x2 y2 : list Q),
+  List.length x1 = List.length y1 -> List.length x2 = List.length y2 -> x1 <> [] -> x2 <> [] ->
+  (forall p, In p (combine x1 y1) -> In p (lattice 4)) -> (forall p, In p (combine x2 y2) -> In p (lattice 4)) ->
+  polygon_collide (simple_convex_hull (combine x1 y1)) (simple_convex_hull (combine x2 y2)) = false ->
+  forall s t : R, (0 <= s <= 1)%R -> (0 <= t <= 1)%R -> ~ (BR x1 s = BR x2 t /\ BR y1 s = BR y2 t).
+Proof.
+  exact (fun x1 y1 x2 y2 L1 L2 N1 N2 H1 H2 =>
+    hull_pruning_is_sound x1 y1 x2 y2 L1 L2 N1 N2 (hull_is_the_convex_hull_on_the_4x4_lattice _ H1) (hull_is_the_convex_hull_on_the_4x4_lattice _ H2)).
+Qed.
+Print Assumptions C03_hull_pruning_is_sound_on_the_lattice.
